@@ -19,6 +19,13 @@ MSpec == MInit /\ [][MNext]_<<vars, mon, viol>>
 
 C11 == viol = {}
 
+\* the jumping / closed forms used for runs of equal reads (writes) are the step-by-step definitions
+RunEquiv ==
+  IF Side = "dec"
+  THEN \A k \in 1..(Total(str.frames) - pos), c \in 1..(Total(str.frames) - pos + 1) :
+         derr \/ eof \/ Reads(str, pos, nY, k, c, 1, <<>>, <<>>) = ReadsJ(str, pos, nY, k, c, 0, <<>>, <<>>)
+  ELSE \A k \in 1..6, c \in 1..6 : Socks(sb, k, c, 1, <<>>, 0) = SocksJ(sb, k, c)
+
 \* the last observation record influences the future only through the monitor and through "the behaviour has ended"
 MView == <<dvars, svars, mon, viol, evt.ev = "End">>
 
